@@ -167,7 +167,7 @@ def generic_path(rng, numinterfaces, sizes=None, random_frames=False, flags=None
     return path
 
 
-def snell_path(rng, numinterfaces, tilt=True, max_inc_deg=70.0, modes=None, extra_points=True):
+def snell_path(rng, numinterfaces, tilt=True, max_inc_deg=70.0, modes=None, extra_points=True, contact=False):
     """An immersion-like Path (probe | frontwall T | backwall R | frontwall R | grid, truncated to
     `numinterfaces`; contact when 2) with ONE source and ONE target, whose wall point sets contain
     the exact Snell crossing point of the ray (middle of three points), so that the ray-traced
@@ -184,6 +184,10 @@ def snell_path(rng, numinterfaces, tilt=True, max_inc_deg=70.0, modes=None, extr
     block = arim.Material(cl, float(cl * rng.uniform(0.45, 0.65)), density=float(rng.uniform(2000, 8000)), state_of_matter="solid")
     if n == 2:
         mats, md = [block], [str(rng.choice(["L", "T"]))]
+    elif contact:
+        # a wall-echo path of the contact model: probe on the block | backwall R | frontwall R | backwall R | target, all in the block
+        mats = [block] * (n - 1)
+        md = [str(rng.choice(["L", "T"])) for _ in range(n - 1)]
     else:
         mats = [couplant] + [block] * (n - 2)
         md = ["L"] + [str(rng.choice(["L", "T"])) for _ in range(n - 2)]
@@ -192,6 +196,8 @@ def snell_path(rng, numinterfaces, tilt=True, max_inc_deg=70.0, modes=None, extr
     vels = [m.velocity(arim.Mode[x]) for m, x in zip(mats, md)]
     # wall k (k = 1..n-2): reference depth and tilt; kinds as in generic_path
     zs = {2: [0.0, 20e-3], 3: [-10e-3, 0.0, 20e-3], 4: [-10e-3, 0.0, 30e-3, 15e-3], 5: [-10e-3, 0.0, 30e-3, 0.0, 15e-3]}[n]
+    if contact and n > 2:
+        zs = {3: [0.0, 30e-3, 15e-3], 4: [0.0, 30e-3, 0.0, 15e-3], 5: [0.0, 30e-3, 0.0, 30e-3, 15e-3]}[n]
     tilts = [0.0] * n
     if tilt:
         t1 = float(rng.uniform(-0.15, 0.15))
@@ -222,7 +228,7 @@ def snell_path(rng, numinterfaces, tilt=True, max_inc_deg=70.0, modes=None, extr
         st2 = dt2 @ dt2
         if st2 >= 0.97:
             return None
-        reflect = k >= 2
+        reflect = k >= 2 or contact
         sign = -np.sign(denom) if reflect else np.sign(denom)
         d = dt2 + sign * np.sqrt(1 - st2) * nk
         p = q
@@ -257,6 +263,9 @@ def snell_path(rng, numinterfaces, tilt=True, max_inc_deg=70.0, modes=None, extr
                     dict(kind="fluid_solid", transmission_reflection="transmission", are_normals_on_inc_rays_side=False, are_normals_on_out_rays_side=True),
                     dict(kind="solid_fluid", transmission_reflection="reflection", reflection_against=couplant, are_normals_on_inc_rays_side=False, are_normals_on_out_rays_side=False),
                     dict(kind="solid_fluid", transmission_reflection="reflection", reflection_against=couplant, are_normals_on_inc_rays_side=True, are_normals_on_out_rays_side=True)]
+            if contact:
+                back = dict(kind="solid_fluid", transmission_reflection="reflection", reflection_against=couplant, are_normals_on_inc_rays_side=False, are_normals_on_out_rays_side=False)
+                spec = [spec[0], back, spec[3], back]
             kind = dict(are_normals_on_inc_rays_side=True) if k == n - 1 else spec[k]
         ifaces.append(arim.Interface(P, ori, **kind))
     path = arim.Path(tuple(ifaces), tuple(mats), tuple(md), name="".join(md[1:]) if n > 2 else md[0])
@@ -266,10 +275,13 @@ def snell_path(rng, numinterfaces, tilt=True, max_inc_deg=70.0, modes=None, extr
     if extra_points and any(idx[k] != 1 for k in range(1, n - 1)):
         return None
     legs = [float(np.linalg.norm(pts[k + 1] - pts[k])) for k in range(n - 1)]
-    return path, dict(points=pts, thetas_in=thetas, legs=legs, vels=vels, modes=md, couplant=couplant, block=block, tilts=tilts)
+    info = dict(points=pts, thetas_in=thetas, legs=legs, vels=vels, modes=md, couplant=couplant, block=block, tilts=tilts)
+    if contact and n > 2:
+        info["reflect"] = [None] + [True] * (n - 2) + [None]
+    return path, info
 
 
-def immersion_exact(rng, max_reflections=1, numel=None, numscat=None, tilt=True):
+def immersion_exact(rng, max_reflections=1, numel=None, numscat=None, tilt=True, reuse_materials=None):
     """A block-in-immersion set-up (flat parallel front and back walls) whose wall point sets are
     exactly the Snell crossing points of every (element, path, scatterer) ray, so that the discrete
     Fermat rays found by arim obey Snell's law to rounding. Returns a dict with probe, views (ray
@@ -288,6 +300,12 @@ def immersion_exact(rng, max_reflections=1, numel=None, numscat=None, tilt=True)
     block = arim.Material(cl, float(cl * rng.uniform(0.48, 0.6)), density=float(rng.uniform(2500, 8000)), state_of_matter="solid",
                           longitudinal_att=arim.material_attenuation_factory("polynomial", [float(rng.uniform(0, 10)), float(rng.uniform(0, 2))]),
                           transverse_att=arim.material_attenuation_factory("constant", float(rng.uniform(0, 30))))
+    if reuse_materials is not None:
+        # a velocity / density update of the SAME Material objects (a calibration step, a sweep): the new values are assigned in place
+        c_old, b_old = reuse_materials
+        c_old.longitudinal_vel, c_old.density = couplant.longitudinal_vel, couplant.density
+        b_old.longitudinal_vel, b_old.transverse_vel, b_old.density = block.longitudinal_vel, block.transverse_vel, block.density
+        couplant, block = c_old, b_old
     numel = numel or int(rng.integers(2, 5))
     probe = arim.Probe.make_matrix_probe(numel, float(rng.uniform(0.6e-3, 1.2e-3)), 1, np.nan, 5e6)
     probe.set_reference_element("first")
